@@ -83,6 +83,15 @@ def _build_pool() -> list[tuple[str, object, str]]:
             added += 1
         if added == 14:
             break
+    # a user-defined callable attribute whose type hashes by identity (functools.partial): same str,
+    # different unfolding
+    import functools  # noqa: PLC0415
+
+    for variant in (1, 2):
+        pool.append((f"edw_partial{variant}",
+                     EnergyDependentWidth(s, m0, w0, m1, m2, 1, d,
+                                          phsp_factor=functools.partial(z_exprs.custom_phase_space, variant=variant)),
+                     "str:edw"))
     # same str and same unfolding, different non-SymPy attribute: a benign collision
     pool.append(("lib:PhaseSpaceFactor:unnamed", PhaseSpaceFactor(s_real, m1, m2), "str:psf"))
     pool.append(("lib:PhaseSpaceFactor:named", PhaseSpaceFactor(s_real, m1, m2, name="R"), "str:psf"))
@@ -164,6 +173,16 @@ def run_phase(root: str, phase: dict, trace=None, rng_seed: str = "") -> dict:  
                 sim.report({"actor": actor.idx, "call": ci, "expr": entry["name"],
                             "dir": call.get("dir", "shared"), "status": status,
                             "detail": detail, "verify": verify})
+                open_now = len(actor.files) + len(actor.fds)
+                history = getattr(actor, "open_history", [])
+                history.append(open_now)
+                actor.open_history = history
+                if len(history) >= 3 and history[-1] > history[-2] > history[-3]:
+                    # descriptors that stay open after a call and grow with every call: sooner or later a
+                    # call raises EMFILE because of the history of calls
+                    sim.report({"actor": actor.idx, "call": ci, "expr": entry["name"], "dir": call.get("dir", "shared"),
+                                "status": "descriptor-leak", "verify": verify,
+                                "detail": f"open descriptors under the cache directory after consecutive calls: {history[-3:]}"})
                 sim.seam("call-end", entry["name"])
                 actor.in_call = False
 
